@@ -191,8 +191,22 @@ theorem ident_conf_valid (cx : Cx) (hp : cx.plain) (ntd : Bool) : ∀ (t : Ty) (
   | .td _ _ _, _, _, hi, _ => by simp [Ty.packIdent] at hi
   | .dc _ _ _, _, _, hi, _ => by simp [Ty.packIdent] at hi
 
-theorem nullable_valid_none (ntd : Bool) (t : Ty) (h : t.nullableAnn = true) : Valid (schemaOf ntd t) .none := by
-  cases t <;> simp [Ty.nullableAnn] at h <;> simp [schemaOf, Valid, ValidAny, HasJT]
+theorem nullable_valid_none (ntd : Bool) (t : Ty) (hs : SOK t) (h : t.nullableAnn = true) : Valid (schemaOf ntd t) .none := by
+  cases t with
+  | union ts => simp [SOK] at hs
+  | lit vals =>
+    simp only [SOK] at hs
+    simp only [Ty.nullableAnn, List.any_eq_true] at h
+    obtain ⟨cw, hm, hn⟩ := h
+    have h1 : cw.1 = V.none := isNone_true hn
+    have h2 : cw.2 = V.none := by rw [hs cw hm, h1]
+    simp only [schemaOf, Valid, List.mem_map]
+    exact ⟨cw, hm, h2⟩
+  | any => simp [schemaOf, Valid]
+  | none => simp [schemaOf, Valid, HasJT]
+  | opt t => simp [schemaOf, Valid, ValidAny, HasJT]
+  | bool | int | float | str | leaf _ | enum _ _ | coll _ _ | map _ _ _ | chain _ _ | tvar _ | tfix _ | tunp _ _ _ | nt _ _ _ _ | td _ _ _ | dc _ _ _ =>
+    simp [Ty.nullableAnn] at h
 
 section
 variable (O : Oracle) (hO : PrintLaws O) (hW : WireLaws O)
@@ -525,7 +539,7 @@ theorem packFields_valid : ∀ (cls : String) (cfg : Cfg) (ivs : List (String ×
         simp only [hom, Bool.false_eq_true, if_false, hattr, R.bind_ok, hnn, hes, R.pure_eq, if_true, hon, hod, Bool.false_and, Bool.or_self]
         refine ⟨_, rfl, ?_⟩
         simp only [RelE]
-        exact ⟨hkey, nullable_valid_none cx.ntAsDict t htn, heb⟩
+        exact ⟨hkey, nullable_valid_none cx.ntAsDict t hst htn, heb⟩
       · have hconf : Conf t x := by
           rcases hcx with h | ⟨rfl, hd⟩
           · exact h
